@@ -273,6 +273,27 @@ int main ()
     O.puti (finite ? 1 : 0); O.puti (cs->fields == n ? 1 : 0); O.put ((double) e1); O.put ((double) e2); O.put ((double) e3); O.put ((double) e4); };
 
 
+  // oracle (history): ONE single sample over ONE rectangular-modulated log-normal mode, queried again and again while the
+  // sample size changes and public functions that change the per-instance statistics are called in between (mut 1:
+  // compute_cross_correlation for the new sample size, which changes every lag from 1 to the width and leaves the covariance
+  // alone; mut 2: set_beta on the inner model; mut 0: nothing).  After every step the predicted covariance and cross-covariance
+  // of the sample mean must equal the brute-force double sums of what the mode reports NOW.  Output: max relative errors
+  OP("o.c06.rehistory") { Stokes<double> S = A.stokes(); double beta = A.d(); unsigned w = A.n(); unsigned n0 = A.n(); unsigned steps = A.n();
+    epsic::mode* base = new epsic::mode; base->set_Stokes (S); epsic::lognormal_mode* ln = new epsic::lognormal_mode (base, beta);
+    epsic::square_modulated_mode* sq = new epsic::square_modulated_mode (ln, w, n0); epsic::mode* m = sq;
+    epsic::single smp (m); smp.sample_size = n0; long double e1 = 0, e2 = 0;
+    for (unsigned st=0; st<=steps; st++) { unsigned n = n0, lag = 1;
+      if (st) { n = A.n(); lag = A.n(); unsigned mut = A.n(); smp.sample_size = n; if (mut == 1) sq->compute_cross_correlation (n); else if (mut == 2) ln->set_beta (A.d()); }
+      Matrix<4,4,double> cov = smp.get_covariance(), xc = smp.get_crosscovariance (lag);
+      long double scale = 1e-300L; Matrix<4,4,double> c1 = m->get_covariance(); for (int i=0;i<4;i++) for (int j=0;j<4;j++) scale = std::max (scale, fabsl ((long double)c1[i][j]));
+      for (int i=0;i<4;i++) for (int j=0;j<4;j++) { long double sc = 0, sx = 0;
+        for (unsigned a=0;a<n;a++) for (unsigned b=0;b<n;b++) {
+          unsigned l0 = (a > b) ? a-b : b-a; sc += (l0 == 0) ? (long double) m->get_covariance()[i][j] : (long double) m->get_crosscovariance (l0)[i][j];
+          unsigned l1 = (lag*n + a > b) ? lag*n + a - b : b - (lag*n + a); sx += (long double) m->get_crosscovariance (l1)[i][j]; }
+        sc /= (long double)n*n; sx /= (long double)n*n;
+        long double d1 = fabsl (cov[i][j] - sc) / scale, d2 = fabsl (xc[i][j] - sx) / scale; if (!(d1 == d1)) d1 = 1e300L; if (!(d2 == d2)) d2 = 1e300L;
+        e1 = std::max (e1, d1); e2 = std::max (e2, d2); } }
+    O.put ((double) e1); O.put ((double) e2); };
   // oracle: the workers sample::get_covariance (mode, n) / get_crosscovariance (mode, lag, n), called on an object whose own
   // sample_size is m (as composite does with n_A, n_B), against the brute-force double sums for n.  Output: max relative errors
   OP("o.c06.worker") { unsigned n = A.n(); unsigned m = A.n(); unsigned lag = A.n(); stub_mode s; s.cv = A.d(); unsigned k = A.n(); for (unsigned i=0;i<k;i++) s.x.push_back (A.d());
